@@ -88,6 +88,7 @@ def main():
     pid = a.pid
     seed = int(os.environ.get("VERIF_SEED", "0") or 0)
     t0 = time.time()
+    P.ensure_auto_watch()
     spec = P.PROPS[pid]
     tier = "thorough" if a.tier == "thorough" else "quick"
     os.makedirs(EVID, exist_ok=True)
